@@ -1029,3 +1029,181 @@ TWINS += [
     {"name": "descent-skips-only-leaf-states", "edits": [(M, _DYN_DESCENT, "            for _, new_state in state.dynamic:\n                if new_state.dynamic or new_state.static:\n                    _update_state(new_state)\n")]},
     {"name": "traversal-step-returns-early-on-leaf", "edits": [(M, _SORT_LINE, "            if not state.dynamic and len(state.static) == 0:\n                return\n" + _SORT_LINE)]},
 ]
+
+
+# ======================================================================
+# R3.7 / R3.8: what the parser writes at the end of a dynamic part's regex against how the matcher reads it
+
+_LOOP_ANCHOR = '                    if not static:\n                        content += r"\\Z"\n'
+_END_ANCHOR = '        if not static:\n            content += r"\\Z"\n        weight = Weighting(\n'
+_AUG_TEST = '        if final and content[-1] == "/":\n'
+_AUG_LINE = '            content = content[:-1] + "(?<!/)(/?)"\n'
+_AUG_BLOCK = (
+    '        suffixed = False\n'
+    '        if final and content[-1] == "/":\n'
+    "            # If a converter is part_isolating=False (matches slashes) and ends with a\n"
+    "            # slash, augment the regex to support slash redirects.\n"
+    "            suffixed = True\n"
+    '            content = content[:-1] + "(?<!/)(/?)"\n'
+)
+_APPLY = "                match = re.compile(test_part.content).match(target)\n"
+_PYTHONIZE = "def _pythonize(value: str) -> None | bool | int | float | str:\n"
+
+
+def _close_helper(cond: str) -> str:
+    return (
+        "def _close_part(content: str, static: bool) -> str:\n"
+        '    """The text of a finished part: a regex is anchored at the end of the segment."""\n'
+        f'    return content + r"\\Z" if {cond} else content\n'
+        "\n\n"
+    )
+
+
+MUTANTS += [
+    {"name": "inner-part-loses-its-end-anchor", "expect": "R3.7", "edits": [(R, _LOOP_ANCHOR, "")]},
+    {"name": "last-part-anchored-only-when-static", "expect": "R3.7", "edits": [(R, _END_ANCHOR, _END_ANCHOR.replace("if not static:", "if static:"))]},
+    {"name": "inner-part-dollar-instead-of-end-anchor", "expect": "R3.7", "edits": [(R, _LOOP_ANCHOR, _LOOP_ANCHOR.replace('r"\\Z"', '"$"'))]},
+    {"name": "end-anchor-written-as-escaped-backslash", "expect": "R3.7", "edits": [(R, _END_ANCHOR, _END_ANCHOR.replace('r"\\Z"', 'r"\\\\Z"'))]},
+    {"name": "matcher-searches-the-part-regex", "expect": "R3.7", "edits": [(M, _APPLY, _APPLY.replace(".match(target)", ".search(target)"))]},
+    {"name": "closing-helper-anchors-the-static-parts", "expect": "R3.7", "edits": [
+        (R, _PYTHONIZE, _close_helper("static") + _PYTHONIZE),
+        (R, _LOOP_ANCHOR, "                    content = _close_part(content, static)\n"),
+        (R, _END_ANCHOR, "        content = _close_part(content, static)\n        weight = Weighting(\n"),
+    ]},
+    {"name": "fstring-puts-the-anchor-in-front", "expect": "R3.7", "edits": [(R, _LOOP_ANCHOR, '                    if not static:\n                        content = rf"\\Z{content}"\n')]},
+    {"name": "all-anchors-gone-matcher-still-prefix-matches", "expect": "R3.7", "edits": [
+        (R, _LOOP_ANCHOR, ""),
+        (R, _END_ANCHOR, "        weight = Weighting(\n"),
+    ]},
+    # R3.8
+    {"name": "slash-suffix-only-for-redirecting-rules", "expect": "R3.8", "edits": [
+        (R, _AUG_BLOCK, "        redirectable = bool(self.strict_slashes)\n" + _AUG_BLOCK.replace("if final and content", "if final and redirectable and content")),
+    ]},
+    {"name": "suffixed-flag-without-the-regex-suffix", "expect": "R3.8", "edits": [(R, _AUG_LINE, "")]},
+    {"name": "optional-slash-not-captured", "expect": "R3.8", "edits": [(R, _AUG_LINE, _AUG_LINE.replace("(/?)", "(?:/?)"))]},
+    {"name": "slash-suffix-mandatory", "expect": "R3.8", "edits": [(R, _AUG_LINE, _AUG_LINE.replace("(/?)", "(/)"))]},
+    {"name": "slash-suffix-test-inverted", "expect": "R3.8", "edits": [(R, _AUG_TEST, _AUG_TEST.replace("==", "!="))]},
+    {"name": "slash-suffix-nested-under-merge-flag", "expect": "R3.8", "edits": [
+        (R, _AUG_BLOCK,
+         '        suffixed = False\n        if final and content[-1] == "/":\n            if self.merge_slashes:\n                suffixed = True\n                content = content[:-1] + "(?<!/)(/?)"\n'),
+    ]},
+]
+
+TWINS += [
+    {"name": "anchor-through-fstring", "edits": [(R, _LOOP_ANCHOR, '                    if not static:\n                        content = rf"{content}\\Z"\n')]},
+    {"name": "anchor-through-closing-helper", "edits": [
+        (R, _PYTHONIZE, _close_helper("not static") + _PYTHONIZE),
+        (R, _LOOP_ANCHOR, "                    content = _close_part(content, static)\n"),
+        (R, _END_ANCHOR, "        content = _close_part(content, static)\n        weight = Weighting(\n"),
+    ]},
+    {"name": "matcher-fullmatch-parser-without-anchors", "edits": [
+        (M, _APPLY, _APPLY.replace(".match(target)", ".fullmatch(target)")),
+        (R, _LOOP_ANCHOR, ""),
+        (R, _END_ANCHOR, "        weight = Weighting(\n"),
+    ]},
+    {"name": "matcher-fullmatch-parser-keeps-anchors", "edits": [(M, _APPLY, _APPLY.replace(".match(target)", ".fullmatch(target)"))]},
+    {"name": "anchor-through-conditional-expression", "edits": [
+        (R, _LOOP_ANCHOR, '                    content += "" if static else r"\\Z"\n'),
+        (R, _END_ANCHOR, '        content += r"\\Z" if not static else ""\n        weight = Weighting(\n'),
+    ]},
+    {"name": "matcher-module-level-re-match", "edits": [(M, _APPLY, "                match = re.match(test_part.content, target)\n")]},
+    {"name": "matcher-pattern-through-local", "edits": [(M, _APPLY, "                pattern = re.compile(test_part.content)\n                match = pattern.match(target)\n")]},
+    {"name": "anchor-through-module-constant", "edits": [
+        (R, _PYTHONIZE, '_END_OF_SEGMENT = r"\\Z"\n\n\n' + _PYTHONIZE),
+        (R, _LOOP_ANCHOR, "                    if not static:\n                        content += _END_OF_SEGMENT\n"),
+        (R, _END_ANCHOR, "        if not static:\n            content += _END_OF_SEGMENT\n        weight = Weighting(\n"),
+    ]},
+    {"name": "anchor-through-join-and-percent", "edits": [
+        (R, _LOOP_ANCHOR, '                    if not static:\n                        content = "".join([content, r"\\Z"])\n'),
+        (R, _END_ANCHOR, '        if not static:\n            content = r"%s\\Z" % content\n        weight = Weighting(\n'),
+    ]},
+    {"name": "anchor-flag-tested-positively", "edits": [
+        (R, _LOOP_ANCHOR, '                    if static:\n                        pass\n                    else:\n                        content = content + r"\\Z"\n'),
+    ]},
+    # R3.8
+    {"name": "slash-suffix-flag-computed-first", "edits": [
+        (R, _AUG_BLOCK, '        suffixed = final and content.endswith("/")\n        if suffixed:\n            content = content[:-1] + "(?<!/)(/?)"\n'),
+    ]},
+    {"name": "slash-suffix-through-removesuffix", "edits": [(R, _AUG_LINE, '            content = content.removesuffix("/") + "(?<!/)(/?)"\n')]},
+    {"name": "slash-suffix-as-alternation", "edits": [(R, _AUG_LINE, _AUG_LINE.replace("(/?)", "(/|)"))]},
+    {"name": "slash-suffix-in-two-steps", "edits": [(R, _AUG_LINE, '            content = content[:-1]\n            content += "(?<!/)(/?)"\n')]},
+    {"name": "slash-suffix-trailing-slash-flag-local", "edits": [
+        (R, _AUG_BLOCK,
+         '        suffixed = False\n        ends_in_slash = content[-1:] == "/"\n        if final and ends_in_slash:\n            suffixed = True\n            content = content[:-1] + "(?<!/)(/?)"\n'),
+    ]},
+]
+
+_PARSE_HEAD = "        convertor_number = 0\n\n        pos = 0\n        while pos < len(rule):\n"
+_LOOP_YIELD = (
+    "                    yield RulePart(\n"
+    "                        content=content,\n"
+    "                        final=final,\n"
+    "                        static=static,\n"
+    "                        suffixed=False,\n"
+    "                        weight=weight,\n"
+    "                    )\n"
+)
+_MATCHER_IMPORTS = "from dataclasses import dataclass\n"
+
+
+def _closed_closure(cond: str) -> str:
+    return (
+        "        convertor_number = 0\n\n"
+        "        def _closed() -> str:\n"
+        f'            return content if {cond} else content + r"\\Z"\n'
+        "\n"
+        "        pos = 0\n        while pos < len(rule):\n"
+    )
+
+
+_ANCHOR_CLOSURE = (
+    "        convertor_number = 0\n\n"
+    "        def _anchor() -> None:\n"
+    "            nonlocal content\n"
+    "            if not static:\n"
+    '                content += r"\\Z"\n'
+    "\n"
+    "        pos = 0\n        while pos < len(rule):\n"
+)
+
+MUTANTS += [
+    {"name": "closing-closure-anchors-the-static-parts", "expect": "R3.7", "edits": [
+        (R, _PARSE_HEAD, _closed_closure("not static")),
+        (R, _LOOP_ANCHOR, "                    content = _closed()\n"),
+        (R, _END_ANCHOR, "        content = _closed()\n        weight = Weighting(\n"),
+    ]},
+    {"name": "cached-compile-then-search", "expect": "R3.7", "edits": [
+        (M, _MATCHER_IMPORTS, _MATCHER_IMPORTS + "from functools import lru_cache\n"),
+        (M, "class SlashRequired(Exception):\n", "_compile = lru_cache(maxsize=None)(re.compile)\n\n\nclass SlashRequired(Exception):\n"),
+        (M, _APPLY, "                match = _compile(test_part.content).search(target)\n"),
+    ]},
+    {"name": "nonlocal-anchor-closure-called-only-for-last-part", "expect": "R3.7", "edits": [
+        (R, _PARSE_HEAD, _ANCHOR_CLOSURE),
+        (R, _LOOP_ANCHOR, ""),
+        (R, _END_ANCHOR, "        _anchor()\n        weight = Weighting(\n"),
+    ]},
+]
+
+TWINS += [
+    {"name": "anchor-through-reading-closure", "edits": [
+        (R, _PARSE_HEAD, _closed_closure("static")),
+        (R, _LOOP_ANCHOR, "                    content = _closed()\n"),
+        (R, _END_ANCHOR, "        content = _closed()\n        weight = Weighting(\n"),
+    ]},
+    {"name": "anchor-through-nonlocal-closure", "edits": [
+        (R, _PARSE_HEAD, _ANCHOR_CLOSURE),
+        (R, _LOOP_ANCHOR, "                    _anchor()\n"),
+        (R, _END_ANCHOR, "        _anchor()\n        weight = Weighting(\n"),
+    ]},
+    {"name": "inner-part-built-positionally", "edits": [(R, _LOOP_YIELD, "                    yield RulePart(content, final, static, False, weight)\n")]},
+    {"name": "matcher-cached-compile-alias", "edits": [
+        (M, _MATCHER_IMPORTS, _MATCHER_IMPORTS + "from functools import lru_cache\n"),
+        (M, "class SlashRequired(Exception):\n", "_compile = lru_cache(maxsize=None)(re.compile)\n\n\nclass SlashRequired(Exception):\n"),
+        (M, _APPLY, "                match = _compile(test_part.content).match(target)\n"),
+    ]},
+    {"name": "matcher-cached-compile-helper", "edits": [
+        (M, _MATCHER_IMPORTS, _MATCHER_IMPORTS + "from functools import lru_cache\n"),
+        (M, "class SlashRequired(Exception):\n", "@lru_cache(maxsize=None)\ndef _compiled(pattern: str) -> re.Pattern[str]:\n    return re.compile(pattern)\n\n\nclass SlashRequired(Exception):\n"),
+        (M, _APPLY, "                match = _compiled(test_part.content).match(target)\n"),
+    ]},
+]
